@@ -1,12 +1,14 @@
 ---------------------------- MODULE MC_TotpSerial ----------------------------
 EXTENDS TotpSerial, TLC, Json
-CONSTANTS Keys, Algs, Digits, Periods, Labels, Issuers, Corruptions, DoEmit
-VARIABLES o, D, fmt, cor, res
+CONSTANTS Keys, Algs, Digits, Periods, Labels, Issuers, Corruptions, Hists, DoEmit
+VARIABLES o, D, fmt, cor, res,
+          hist      \* "fresh": the object was made with its key; "rekeyed": it was made with another key, exported, and
+                    \* then given this key (o is the object's CURRENT state: what is written depends on nothing else)
 Objs == [key : Keys, alg : Algs, digits : Digits, period : Periods, label : Labels \cup {"none"}, issuer : Issuers \cup {"none"}]
 Defaults == [alg : Algs, digits : Digits, period : Periods, issuer : Issuers \cup {"none"}]
 \* an object made by a class with a default issuer always has an issuer
 Init == /\ o \in Objs /\ D \in Defaults /\ (o.issuer = "none" => D.issuer = "none")
-        /\ fmt \in {"uri", "dict", "json"} /\ cor \in Corruptions /\ res = <<"pending">>
+        /\ fmt \in {"uri", "dict", "json"} /\ cor \in Corruptions /\ res = <<"pending">> /\ hist \in Hists
 
 \* corruptions of a source
 CorruptDict(d) == CASE cor = "none" -> d
@@ -16,15 +18,19 @@ CorruptDict(d) == CASE cor = "none" -> d
                     [] cor = "future-version" -> [d EXCEPT !.v = 99]
                     [] cor = "no-key" -> [d EXCEPT !.key = Absent]
                     [] OTHER -> d
+DupOf == [x \in {"dup-secret", "dup-issuer", "dup-digits", "dup-period", "dup-algorithm"} |->
+            CASE x = "dup-secret" -> "secret" [] x = "dup-issuer" -> "issuer" [] x = "dup-digits" -> "digits" [] x = "dup-period" -> "period" [] OTHER -> "algorithm"]
 CorruptUri(u) == CASE cor = "none" -> u
                    [] cor = "bad-scheme" -> [u EXCEPT !.scheme = "http"]
                    [] cor = "bad-type" -> [u EXCEPT !.type = "hotp"]
                    [] cor = "no-label" -> [u EXCEPT !.label = Absent]
                    [] cor = "no-key" -> [u EXCEPT !.params = Tail(u.params)]
-                   [] cor = "dup-param" -> [u EXCEPT !.params = Append(u.params, <<"secret", u.params[1][2]>>)]
+                   [] cor \in DOMAIN DupOf -> LET nm == DupOf[cor]  v == IF Param(u, nm) = Absent THEN "dup-value" ELSE Param(u, nm) IN
+                                               \* the parameter ends up twice in the query, with identical values
+                                               [u EXCEPT !.params = IF Param(u, nm) = Absent THEN u.params \o <<<<nm, v>>, <<nm, v>>>> ELSE Append(u.params, <<nm, v>>)]
                    [] cor = "issuer-conflict" -> [u EXCEPT !.prefix = "other-issuer", !.params = Append(SelectSeq(u.params, LAMBDA p : p[1] # "issuer"), <<"issuer", "iss-x">>)]
                    [] OTHER -> u
-Applicable == IF fmt = "uri" THEN cor \in {"none", "bad-scheme", "bad-type", "no-label", "no-key", "dup-param", "issuer-conflict"}
+Applicable == IF fmt = "uri" THEN cor \in {"none", "bad-scheme", "bad-type", "no-label", "no-key", "issuer-conflict"} \cup DOMAIN DupOf
               ELSE cor \in {"none", "no-type", "bad-type", "no-version", "future-version", "no-key"}
 
 RoundTrip ==
@@ -32,7 +38,7 @@ RoundTrip ==
     /\ res' = IF fmt = "uri"
               THEN (IF ToUri(o)[1] # "ok" THEN <<"ValueError-on-write">> ELSE FromUri(CorruptUri(ToUri(o)[2]), D))
               ELSE FromDict(CorruptDict(ToDict(o, D)), D)
-    /\ UNCHANGED <<o, D, fmt, cor>>
+    /\ UNCHANGED <<o, D, fmt, cor, hist>>
 Next == RoundTrip
 
 \* an uncorrupted source gives back the same configuration - for every class default
@@ -40,5 +46,5 @@ InvRoundTrip == (res[1] = "ok" /\ cor = "none") => res[2] = o
 \* every corrupted source is refused
 InvRefused == (res # <<"pending">> /\ cor # "none") => res[1] = "ValueError" \/ res = <<"ValueError-on-write">>
 InvLabelNeeded == res = <<"ValueError-on-write">> => (fmt = "uri" /\ o.label = "none")
-Emit == DoEmit => PrintT(<<"EMIT", ToJson([o |-> o, D |-> D, fmt |-> fmt, cor |-> cor, res |-> res'])>>)
+Emit == DoEmit => PrintT(<<"EMIT", ToJson([o |-> o, D |-> D, fmt |-> fmt, cor |-> cor, hist |-> hist, res |-> res'])>>)
 =============================================================================
